@@ -741,3 +741,96 @@ def _brief(n):
     if n.get("extra_columns"):
         out["extra_columns"] = n["extra_columns"]
     return out
+
+
+# ------------------------------------------------------------------------------------------------ GeoDataFrame frames / flags
+def gdf_frames(tier, seed):
+    """History independence of the GeoDataFrame conversions over the arguments the plotting accessor varies: projections with a
+    different central longitude (the antimeridian of the requested frame moves), and project=True/False.  For every ordered pair
+    (B, A) of calls: A after B on one grid must equal A on a fresh grid (rows, data values of UxDataArray.to_geodataframe)."""
+    thorough = tier == "thorough"
+    rng = random.Random(seed * 7919 + 5)
+    failures, cases, distinct, samples = [], 0, set(), []
+    projs = [None, ccrs.Robinson(), ccrs.Robinson(central_longitude=180)]
+    if thorough:
+        projs += [ccrs.Mollweide(central_longitude=90)]
+    meshes = [m for m in mg.catalogue(tier, seed) if m["n_face"] <= (60 if thorough else 26)]
+    am_m = [m for m in meshes if any(Oracle(m).am)]
+    zero_m = [m for m in meshes if m["closed"]]
+    pick = (zero_m[:2] + am_m[:2]) if not thorough else (zero_m[:5] + am_m[:6])
+    seen = set()
+    pick = [m for m in pick if not (m["name"] in seen or seen.add(m["name"]))]
+
+    def call(g, da, c):
+        site, pe, proj, eng, project = c
+        kw = dict(periodic_elements=pe, projection=proj, engine=eng)
+        if project is not None:
+            kw["project"] = project
+        out = (g if site == "ggdf" else da).to_geodataframe(**kw)
+        rows = gdf_rows(out)
+        vals = np.asarray(out["v"].values, float) if site == "dgdf" else None
+        return {"rows": rows, "values": vals, "idx": None, "extra_columns": [c_ for c_ in out.columns if c_ not in ("geometry", "v")]}
+
+    def ptag(proj):
+        if proj is None:
+            return "lonlat"
+        return f"{type(proj).__name__}(lon_0={proj.proj4_params.get('lon_0', 0)})"
+
+    def label(c):
+        site, pe, proj, eng, project = c
+        return f"{Cfg.SITE[site]}({pe},{ptag(proj)},{eng}" + ("" if project is None else f",project={project}") + ")"
+
+    for mesh in pick:
+        cfgs = []
+        for pe in ("exclude", "ignore"):
+            for proj in projs:
+                for project in ((None,) if proj is None else (None, False)):
+                    for site in ("ggdf", "dgdf"):
+                        cfgs.append((site, pe, proj, "geopandas", project))
+        fresh = {}
+        for c in cfgs:
+            g, da = make(mesh)
+            try:
+                fresh[label(c)] = call(g, da, c)
+            except Exception as e:  # noqa: BLE001
+                fresh[label(c)] = ("EXC", type(e).__name__)
+        pairs = [(b, a) for b in cfgs for a in cfgs if label(a) != label(b)]
+        if not thorough:
+            rng.shuffle(pairs)
+            pairs = pairs[:120]
+        for b, a in pairs:
+            cases += 1
+            distinct.add((mesh["name"], label(b), label(a)))
+            g, da = make(mesh)
+            try:
+                call(g, da, b)
+            except Exception:  # noqa: BLE001
+                pass
+            try:
+                got = call(g, da, a)
+            except Exception as e:  # noqa: BLE001
+                got = ("EXC", type(e).__name__)
+            ref = fresh[label(a)]
+            same = (got == ref) if (isinstance(got, tuple) or isinstance(ref, tuple)) else same_norm(got, ref)
+            if not same:
+                d = []
+                if ptag(a[2]) != ptag(b[2]):
+                    d.append("projection")
+                if a[4] != b[4]:
+                    d.append("project")
+                if a[1] != b[1]:
+                    d.append("periodic_elements")
+                if a[0] != b[0]:
+                    d.append("caller")
+                fail_key = f"history:{Cfg.SITE[a[0]]}:after:{Cfg.SITE[b[0]]}:differs_in={'+'.join(d) or 'nothing'}"
+                failures.append({"key": fail_key, "what": f"{label(a)} after {label(b)} differs from the same call on a fresh grid",
+                                 "violated": "the result of a conversion depends only on its arguments, never on earlier conversions",
+                                 "inputs": {"mesh": mesh["name"], "sequence": [label(b), label(a)]},
+                                 "observed": _brief(got), "expected": _brief(ref)})
+            if len(samples) < 3:
+                samples.append({"mesh": mesh["name"], "sequence": [label(b), label(a)]})
+    bound = (f"{len(pick)} meshes (closed spheres and antimeridian patches, <= {60 if thorough else 26} faces) x ordered pairs of "
+             f"{{Grid, UxDataArray}}.to_geodataframe calls over periodic_elements in (exclude, ignore) x projections "
+             f"{[ptag(p) for p in projs]} x project in (default, False), engine geopandas; "
+             f"{'all' if thorough else '120 sampled'} pairs per mesh")
+    return result(cases, len(distinct), failures, bound, samples)
